@@ -344,9 +344,10 @@ namespace
     // echo every input d steps later (untagged schedules accumulate: several echoes may be pending at once, so the node
     // relies on the engine re-arming its earliest pending time after an input-driven evaluation)
     thread_local std::map<std::pair<const void *, std::size_t>, std::deque<std::pair<long, long>>> g_echo_queues;
-    struct VEcho
+    template <bool Throwing>
+    struct VEchoT
     {
-        static constexpr auto name = "v_echo";
+        static constexpr auto name = Throwing ? "v_techo" : "v_echo";
         static void           start(NodeView self) { g_echo_queues[{self.graph().data(), self.node_index()}].clear(); }
         static void eval(Scalar<"id", Int> id, Scalar<"d", Int> d, In<"x", TS<Int>> x, NodeScheduler sched, NodeView self, DateTime now,
                          Out<TS<Int>> out)
@@ -355,21 +356,32 @@ namespace
             FnLog log(id.value(), self, now);
             log.ins({in_rec(x)});
             const long k = to_k(now);
-            if (!q.empty() && q.front().first == k)
-            {
-                out.set(Int{q.front().second});
-                log.out(q.front().second);
-                q.pop_front();
-            }
+            // the input part first: the node's own queue and timer are complete whatever happens to the emission
+            const bool due  = !q.empty() && q.front().first == k;
+            const long head = due ? q.front().second : 0;
+            if (due) { q.pop_front(); }
             if (x.modified())
             {
                 q.emplace_back(k + d.value(), static_cast<long>(x.value()));
                 sched.schedule(now + MIN_TD * d.value());
                 log_req(id.value(), self, now, now + MIN_TD * d.value());
             }
+            if (due)
+            {
+                if (Throwing && head < 0)
+                {
+                    log.i("throw", 1).emit();
+                    throw std::runtime_error("neg " + std::to_string(head));
+                }
+                out.set(Int{head});
+                log.out(head);
+            }
             log.emit();
         }
     };
+
+    using VEcho  = VEchoT<false>;
+    using VTEcho = VEchoT<true>;
 
     // self-driven source: ticks at start + i*p for i < n, emitting i
     struct VTimer
@@ -1229,6 +1241,7 @@ namespace
             else if (kind == "count") { env.ports.emplace(id, wire<VCount>(w, sid, in.at(0))); }
             else if (kind == "echo") { env.ports.emplace(id, wire<VEcho>(w, sid, Int{l.geti("d", 1)}, in.at(0))); }
             else if (kind == "delay") { env.ports.emplace(id, wire<VDelay>(w, sid, Int{l.geti("d", 1)}, in.at(0))); }
+            else if (kind == "techo") { env.ports.emplace(id, wire<VTEcho>(w, sid, Int{l.geti("d", 1)}, in.at(0))); }
             else if (kind == "tdelay") { env.ports.emplace(id, wire<VTDelay>(w, sid, Int{l.geti("d", 1)}, in.at(0))); }
             else if (kind == "timer") { env.ports.emplace(id, wire<VTimer>(w, sid, Int{l.geti("p", 1)}, Int{l.geti("cnt", 1)})); }
             else if (kind == "throwneg") { env.ports.emplace(id, wire<VThrowNeg>(w, sid, in.at(0))); }
